@@ -17,7 +17,7 @@ META = {
     "engine": "B (orbit partition of the reference by BFS) + A (all ordered pairs)",
     "rule": "a case = ordered pair of labelled graphs (or stabilizer states) with an entry point and mode; non-trivial = the two graphs differ and at least one has an edge; "
             "distinct = distinct (pair, entry point, mode)",
-    "bounds": {"quick": "all ordered pairs n=2,3,4 (4 + 64 + 4096) both modes; n=5: every graph against every member of its own orbit and one representative of every other orbit (deterministic mode and random mode seed 0); "
+    "bounds": {"quick": "all ordered pairs n=2,3,4 (4 + 64 + 4096) both modes; n=5: every graph against every member of its own orbit and one representative of every other orbit (deterministic mode; random mode seed 0 on the same-orbit pairs); "
                         "local complementation on every (graph, vertex) n<=5; lc_check on all 3600 ordered pairs of 2-qubit stabilizer states",
                "thorough": "all 1 048 576 ordered pairs n=5; n=6: every graph against its orbit representative and two other representatives"},
     "assumptions": ["per-call horizon 5 s (lc_graph_operations has unbounded while loops): exceeding it is reported as non-termination",
@@ -247,7 +247,7 @@ def run_shard(shard, tier, acc):
                 others = [tuple(sorted(h)) for h in orbits[o1]] + [tuple(sorted(r)) for k, r in enumerate(reps) if k != o1]
             for e2 in others:
                 same = ids[frozenset(e2)] == o1
-                modes = modes_full if n <= 4 else ([("deterministic", 0), ("random", 0)] if n == 5 else [("deterministic", 0)])
+                modes = modes_full if n <= 4 else ([("deterministic", 0), ("random", 0)] if (n == 5 and same) else [("deterministic", 0)])
                 deep = n <= 4 or (same and (gi % 4 == 0))
                 check_pair(acc, n, e1, e2, same, modes, deep)
                 acc.state((n, o1, ids[frozenset(e2)]))
